@@ -251,6 +251,7 @@ Inductive aout :=
 | AInfo (ty : atype) (isset : bool)
 | AIter (st : status) (key : option bytes) (st2 : status) (ty : atype) (v : aval)
 | ACtx (c : nat)
+| ANoIter                                (* kdump_attr_iter_next on an iterator that was never started *)
 | ABad.                                  (* the history uses a freed context / empty slot *)
 
 (** copy of a subtree into a new dictionary: clone_attr + copy_data + clone_subtree
@@ -299,12 +300,19 @@ Definition iter_out (dir : nat * path) (pos : option nat) (s : astate) : aout :=
       end
   end.
 
+(* a failed start leaves the caller's iterator as it was; the harness then treats
+   the slot as not started *)
+Definition drop_iter (islot : nat) (s : astate) : astate :=
+  {| base := base s; overlays := overlays s; ctxs := ctxs s; refs := refs s;
+     iters := replace_nth islot None (iters s) |}.
+
 Definition iter_start_at (a : nat * path) (islot : nat) (s : astate) : aout * astate :=
   match addr_node a s with
-  | None => (AIter ERR_NOKEY None KDUMP_OK TNil VNone, s)
+  | None => (AIter ERR_NOKEY None KDUMP_OK TNil VNone, drop_iter islot s)
   | Some n =>
-      if negb (aisset n) then (AIter ERR_NODATA None KDUMP_OK TNil VNone, s)
-      else if negb (atype_eqb (aty n) TDir) then (AIter ERR_INVALID None KDUMP_OK TNil VNone, s)
+      if negb (aisset n) then (AIter ERR_NODATA None KDUMP_OK TNil VNone, drop_iter islot s)
+      else if negb (atype_eqb (aty n) TDir)
+           then (AIter ERR_INVALID None KDUMP_OK TNil VNone, drop_iter islot s)
       else
         let pos := first_set (akids n) O in
         let s' := {| base := base s; overlays := overlays s; ctxs := ctxs s; refs := refs s;
@@ -389,7 +397,7 @@ Definition astep (o : aop) (s : astate) : aout * astate :=
       | None => (ABad, s)
       | Some d =>
           match resolve_key d k s with
-          | None => (AIter ERR_NOKEY None KDUMP_OK TNil VNone, s)
+          | None => (AIter ERR_NOKEY None KDUMP_OK TNil VNone, drop_iter islot s)
           | Some a => iter_start_at a islot s
           end
       end
@@ -400,6 +408,7 @@ Definition astep (o : aop) (s : astate) : aout * astate :=
       end
   | OIterNext c islot =>
       match ctx_dict c s, nth_error (iters s) islot with
+      | Some _, None | Some _, Some None => (ANoIter, s)
       | Some _, Some (Some (a, pos)) =>
           match pos with
           | None => (AIter ERR_INVALID None KDUMP_OK TNil VNone, s)   (* "End of iteration" *)
@@ -477,3 +486,18 @@ Fixpoint dump_set (prefix : path) (n : anode) : list (path * atype * aval) :=
   flat_map (fun ch => if aisset ch
                       then (prefix ++ [akey ch], aty ch, aval_of ch) :: dump_set (prefix ++ [akey ch]) ch
                       else []) kids.
+
+(** decidable well-formedness of a dictionary tree: an attribute with a value
+    has a parent with a value; sibling keys are distinct *)
+Fixpoint anc_okb (n : anode) : bool :=
+  let 'ANode _ _ s _ _ kids := n in
+  forallb (fun ch => (negb (aisset ch) || s) && anc_okb ch) kids.
+
+Fixpoint nodupb (l : list bytes) : bool :=
+  match l with
+  | [] => true
+  | x :: t => negb (existsb (bytes_eqb x) t) && nodupb t
+  end.
+
+Fixpoint uniqb (n : anode) : bool :=
+  let 'ANode _ _ _ _ _ kids := n in nodupb (map akey kids) && forallb uniqb kids.
